@@ -118,7 +118,7 @@ func TestSenderReports(t *testing.T) {
 		}
 		rtcpSink := &kit.RTCPSink{}
 		ic.BindRTCPWriter(rtcpSink)
-		defer func() { _ = ic.Close() }()
+		defer kit.BoundedClose(ic.Close)
 		ns := rapid.IntRange(1, 3).Draw(t, "streams")
 		streams := make([]*bound, ns)
 		for i := range streams {
